@@ -52,6 +52,72 @@ fn render(i: Instant, r: u64) -> String {
     }
 }
 
+/// server clock minus request instant, in seconds, for the authenticator operation sequences
+const OP_CLOCKS: [i64; 5] = [0, 900, 901, -901, 960];
+
+/// Run one operation sequence on one authenticator; None = every step behaved as if it were alone.
+fn authenticator_ops(seq: &[u64], carrier: Carrier) -> Option<(usize, String, String)> {
+    use scratchstack_aws_signature::canonical::CanonicalRequest;
+    use std::panic::{catch_unwind, AssertUnwindSafe};
+    let r0 = e2e::base_instant();
+    let plan = e2e::base_plan(carrier);
+    let wire = WireReq::from_wire(&build(&plan).wire);
+    let cfg = Cfg::basic(r0);
+    let outcome = catch_unwind(AssertUnwindSafe(|| -> Result<(), (usize, String, String)> {
+        let req = wire.to_http().map_err(|e| (0, "buildable".to_string(), e))?;
+        let (parts, body) = req.into_parts();
+        let (cr, _, _) = CanonicalRequest::from_request_parts(parts, body, cfg.options()).map_err(|e| (0, "canonical request".to_string(), e.to_string()))?;
+        let reqs = crate::sut::build_vec_reqs(&cfg.reqs, crate::sut::ReqBuild::VecNew);
+        let auth = cr.get_authenticator(&reqs).map_err(|e| (0, "authenticator".to_string(), e.to_string()))?;
+        for (pos, op) in seq.iter().enumerate() {
+            let clock = OP_CLOCKS[(*op % OP_CLOCKS.len() as u64) as usize];
+            let kind = *op / OP_CLOCKS.len() as u64;
+            let server = crate::sut::to_chrono(Instant::new(r0.secs + clock, 0));
+            // the request instant is r0; the server clock is r0 + clock
+            let fresh = clock.abs() <= 900;
+            let mm = chrono::Duration::minutes(15);
+            let (ok, consulted) = match kind {
+                0 => (auth.prevalidate(&cfg.region, &cfg.service, server, mm).is_ok(), false),
+                _ => {
+                    let mut provider = ProvSpec::standard().to_provider();
+                    let target = if kind == 2 { auth.clone() } else { auth.clone() };
+                    let a = if kind == 2 { &target } else { &auth };
+                    let (res, _) = crate::env::run_bounded(a.validate_signature(&cfg.region, &cfg.service, server, mm, &mut provider), 64);
+                    (matches!(res, Some(Ok(_))), provider.touched())
+                }
+            };
+            if ok != fresh || (kind != 0 && consulted != fresh) {
+                return Err((
+                    pos,
+                    format!("{} with the server clock {} s after the request instant: {}", ["prevalidate", "validate_signature", "validate_signature on a clone"][kind as usize], clock, if fresh { "Ok, provider consulted" } else { "refused, provider not consulted" }),
+                    format!("ok={} provider consulted={}", ok, consulted),
+                ));
+            }
+        }
+        Ok(())
+    }));
+    match outcome {
+        Ok(Ok(())) => None,
+        Ok(Err(x)) => Some(x),
+        Err(p) => Some((0, "no panic".to_string(), crate::sut::panic_message(p))),
+    }
+}
+
+pub fn replay(case: &serde_json::Value) -> i32 {
+    let seq: Vec<u64> = case["authenticator_ops"].as_array().map(|a| a.iter().filter_map(|x| x.as_u64()).collect()).unwrap_or_default();
+    let carrier = if case["carrier"] == "Query" { Carrier::Query } else { Carrier::Header };
+    match authenticator_ops(&seq, carrier) {
+        None => {
+            println!("agrees");
+            0
+        }
+        Some((pos, exp, obs)) => {
+            println!("step {} of {:?}: expected {} observed {}", pos, seq, exp, obs);
+            1
+        }
+    }
+}
+
 pub fn run(ctx: &Ctx) -> Report {
     crate::env::set_log_mode(crate::env::LOG_OFF);
     let thorough = ctx.tier.thorough();
@@ -152,10 +218,46 @@ pub fn run(ctx: &Ctx) -> Report {
             crate::core::machinery_error(&format!("reference window disagrees with |offset| <= 900 s for offset {} ns", off));
         }
     });
+    // (2) the same rule on the authenticator object (unstable API), as a state machine: every sequence of 1..3
+    //     operations {prevalidate, validate_signature, validate_signature on a clone} x 5 server clocks on ONE
+    //     authenticator built from a valid request; each operation is judged alone — an earlier successful check
+    //     under another clock vouches for nothing
+    let mut st = st;
+    {
+        let n_ops = 3 * OP_CLOCKS.len() as u64;
+        let depth = 3u32;
+        let nseq = crate::enumr::seq_count(n_ops, depth);
+        let base2 = total;
+        let part = par_sweep(nseq * 2, |i, st| {
+            let carrier = if i % 2 == 0 { Carrier::Header } else { Carrier::Query };
+            let seq = crate::enumr::seq_decode(i / 2, n_ops, depth);
+            if seq.is_empty() {
+                return;
+            }
+            let bad = authenticator_ops(&seq, carrier);
+            st.evaluations += 1;
+            st.validated += 1;
+            st.transitions += seq.len() as u64;
+            st.nontrivial(&("authenticator-ops", &seq, carrier));
+            st.outcome("authenticator-ops");
+            if let Some((pos, exp, obs)) = bad {
+                st.violation(crate::core::Violation {
+                    index: base2 + i,
+                    what: format!("authenticator-operation-sequence(step {} of {:?})", pos, seq),
+                    case: json!({"authenticator_ops": seq, "carrier": format!("{:?}", carrier)}),
+                    expected: exp,
+                    observed: obs,
+                    known: None,
+                });
+            }
+        });
+        st = st.merge(part);
+    }
+
     Report {
         stats: st,
         rule: format!(
-            "{} server instants (plain, +1 ns, +999999999 ns, leap day, month/year/day boundaries) x {} offsets request-server (every whole second in [-1200 s, +1200 s]; +-1, 2, 1000 ns, 1 ms, 999999999 ns around both bounds; {} millisecond points within +-2 s of both bounds; +-1 h, 1 day, 1 year, 901 s) x {} renderings (basic/extended Z, +05:30, -08:00, +14:00, -12:00, 9/12-digit fractions with '.' and ',', +-00:01, -09:30, +12:45, -0000) x carrier x {} lifetime decorations (none, or X-Amz-Expires = 60 .. 604800 s as a signed query parameter / signed header next to an Expires header) x session token present or not; every request freshly and correctly signed (scope date = UTC date of its instant). Oracle: Ok iff |t - now| <= 900 s at nanosecond resolution; otherwise SignatureDoesNotMatch/403 with an empty provider log. states = (inside, side, stage)",
+            "{} server instants (plain, +1 ns, +999999999 ns, leap day, month/year/day boundaries) x {} offsets request-server (every whole second in [-1200 s, +1200 s]; +-1, 2, 1000 ns, 1 ms, 999999999 ns around both bounds; {} millisecond points within +-2 s of both bounds; +-1 h, 1 day, 1 year, 901 s) x {} renderings (basic/extended Z, +05:30, -08:00, +14:00, -12:00, 9/12-digit fractions with '.' and ',', +-00:01, -09:30, +12:45, -0000) x carrier x {} lifetime decorations (none, or X-Amz-Expires = 60 .. 604800 s as a signed query parameter / signed header next to an Expires header) x session token present or not; every request freshly and correctly signed (scope date = UTC date of its instant). Oracle: Ok iff |t - now| <= 900 s at nanosecond resolution; otherwise SignatureDoesNotMatch/403 with an empty provider log; (2) every sequence of 1..3 operations {{prevalidate, validate_signature, validate_signature on a clone}} x 5 server clocks (0, +900, +901, -901, +960 s) on one authenticator object built through the unstable API from a valid request, on both carriers, each operation judged alone. states = (inside, side, stage)",
             n_serv, n_off, if thorough { "all" } else { "every 25th of the" }, n_rend, n_life
         ),
         bounds: json!({"servers": n_serv, "offsets": n_off, "renderings": n_rend}),
